@@ -25,22 +25,22 @@ Lemma seqk_cons {A} (step : A -> list event * outcome) k r :
   end.
 Proof. reflexivity. Qed.
 
-Lemma walk_S g f ls P n s :
-  walk g (S f) ls P n s =
+Lemma walk_S q g f ls P n s :
+  walk q g (S f) ls P n s =
   if is_container n then
-    let '(e, o) := seqk (explore_step g (walk g f) ls P n s) (children n s) in (visit_event P n s ls :: e, o)
+    let '(e, o) := seqk (explore_step q g (walk q g f) ls P n s) (children q n s) in (visit_event P n s ls :: e, o)
   else ([visit_event P n s ls], OOk).
 Proof. reflexivity. Qed.
 
-Lemma cwalk_S c g f st past ls P n s :
-  cwalk c g (S f) st past ls P n s =
+Lemma cwalk_S q c g f st past ls P n s :
+  cwalk q c g (S f) st past ls P n s =
   match check_node st with
   | None => ([], OErr WNodeBudget, st)
   | Some st1 =>
       let vis := if negb past && Nat.ltb (length P) (length (c_start c)) then []
                  else [visit_event P n s ls] in
       if is_container n then
-        let '(e, o, st2) := cloop c (cexplore_step c g (cwalk c g f) ls P n s) P (children n s) st1 past false in
+        let '(e, o, st2) := cloop c (cexplore_step q c g (cwalk q c g f) ls P n s) P (children q n s) st1 past false in
         (vis ++ e, o, st2)
       else (vis, OOk, st1)
   end.
@@ -73,20 +73,20 @@ Proof.
 Qed.
 
 (* every event of a walk started with link stack ls has a stack that ends in ls *)
-Lemma walk_stack_suffix g f : forall ls P n s,
-  Forall (fun e => exists pre, ev_stack e = pre ++ ls) (fst (walk g f ls P n s)).
+Lemma walk_stack_suffix q g f : forall ls P n s,
+  Forall (fun e => exists pre, ev_stack e = pre ++ ls) (fst (walk q g f ls P n s)).
 Proof.
   induction f as [|f IH]; intros; [constructor|].
   rewrite walk_S. destruct (is_container n).
   - pose proof (seqk_Forall (fun e => exists pre, ev_stack e = pre ++ ls)
-                  (explore_step g (walk g f) ls P n s) (children n s)) as H.
-    destruct (seqk (explore_step g (walk g f) ls P n s) (children n s)) as [e o]. cbn in *.
+                  (explore_step q g (walk q g f) ls P n s) (children q n s)) as H.
+    destruct (seqk (explore_step q g (walk q g f) ls P n s) (children q n s)) as [e o]. cbn in *.
     constructor; [exists []; apply visit_event_stack|]. apply H. clear H. intros k.
-    unfold explore_step. destruct (explore s n (fst k)) as [[s'|]| |]; cbn; try constructor.
+    unfold explore_step. destruct (explore q s n (fst k)) as [[s'|]| |]; cbn; try constructor.
     destruct (snd k); try apply IH.
     destruct (assoc c g) as [b|]; cbn.
     + specialize (IH (c :: ls) (P ++ [fst k]) b s').
-      destruct (walk g f (c :: ls) (P ++ [fst k]) b s') as [e' o']. cbn in *.
+      destruct (walk q g f (c :: ls) (P ++ [fst k]) b s') as [e' o']. cbn in *.
       constructor; [exists []; reflexivity|].
       eapply Forall_impl; [|exact IH]. intros a [pre Hp]. exists (pre ++ [c]). rewrite <- app_assoc. exact Hp.
     + constructor; [exists []; reflexivity|constructor].
